@@ -343,6 +343,26 @@ Theorem ecs_or_cd_tree_bypasses_shared_denial : forall pol t ctx,
 Proof. exact isolated_tree_denied. Qed.
 Print Assumptions ecs_or_cd_tree_bypasses_shared_denial.
 
+(* ... also when the root is WIRE-BORN and the cache's byte ladder (Cache.serveWire ->
+   serveCompositeFromWire) runs before anything is decoded: for every policy — in particular NONE, the
+   default configuration, where nothing is forwarded and no scoped entries exist — a query that carried
+   a subnet option or CD gets nothing from the shared denial state, on bytes or in the body *)
+Theorem ecs_or_cd_wire_tree_bypasses_shared_denial : forall pol rd t,
+  root_isolated t = true -> Forall denied (tree_perms_wire pol rd t).
+Proof. exact isolated_wire_tree_denied. Qed.
+Print Assumptions ecs_or_cd_wire_tree_bypasses_shared_denial.
+
+Theorem byte_ladder_isolates_ecs_and_cd_without_policy : forall rd has_ecs cd,
+  has_ecs || cd = true -> denied (wire_ladder_perm rd has_ecs cd).
+Proof. exact wire_ladder_isolated. Qed.
+Print Assumptions byte_ladder_isolates_ecs_and_cd_without_policy.
+
+(* the byte ladder never allows more than the decoded body of the same call *)
+Theorem byte_ladder_adds_nothing : forall pol t,
+  tree_perms_wire pol true t = tree_perms pol (mk_dctx false false) t.
+Proof. exact wire_ladder_adds_nothing. Qed.
+Print Assumptions byte_ladder_adds_nothing.
+
 (* ---------------------------------------------------------------- non-vacuity *)
 Example forwarded_example :
   let p := mk_policy true 24 56 [] 24 56 in
